@@ -12,24 +12,54 @@ VALS = [0.25, 0.5, 1.0, 1.5, 2.0, 3.0]
 
 def gen_history(rng, maxlen):
     ops = []
+    known = []          # species the model knows by now (approximately: failed operations are not tracked)
+
+    def learn(names):
+        for x in names:
+            if x and x not in known:
+                known.append(x)
+
+    def rule_op():
+        # the target is a species no reaction touches and no rule reads (a rule that overwrites a reactant of the
+        # reactions feeding it makes the network explosive, which is outside the property's bounded models)
+        srcs = [x for x in known if x in SPECIES]
+        dest = rng.choice(["S", "R"])
+        if srcs and rng.chance(4, 5):
+            return ["createRule", dest, [rng.choice(srcs) for _ in range(rng.randint(1, 2))]]
+        return ["createRule", dest, [rng.choice(SPECIES[:3]) for _ in range(rng.randint(1, 2))]]
+
     n = rng.randint(3, maxlen)
     for _ in range(n):
         c = rng.below(100)
         if c < 15:
-            ops.append(["addSpecies", rng.choice(SPECIES + [""])])
+            ops.append(["addSpecies", rng.choice(SPECIES + ["S", "R", ""])])
+            learn([ops[-1][1]])
         elif c < 30:
             ops.append(["createParameter", rng.choice(PARAMS + (["A"] if rng.chance(1, 8) else [])), rng.choice(VALS)])
         elif c < 45:
             ops.append(["setParameter", rng.choice(PARAMS + ["k9"]), rng.choice(VALS)])
         elif c < 60:
             ops.append(["setSpecies", [[rng.choice(SPECIES + ["Q"]), float(rng.randint(0, 9))] for _ in range(rng.randint(1, 3))]])
-        elif c < 85:
+        elif c < 68:
+            ops.append(rule_op())       # an additive rule over species only (no parameter involved)
+        elif c < 87:
             r = [rng.choice(SPECIES) for _ in range(rng.randint(0, 3))]
             p = [rng.choice(SPECIES) for _ in range(rng.randint(0, 2))]
             k = {"name": rng.choice(PARAMS)} if rng.chance(1, 2) else {"num": rng.choice(VALS)}
             ops.append(["createMassAction", r, p, k])
+            learn(r + p)
         else:
             ops.append(["initialize"])
+    # how a session often ends: the model is complete and has been used, then one more edit is made before the next run
+    tail = rng.below(6)
+    if tail == 0:
+        ops += [["initialize"], rule_op()]
+    elif tail == 1:
+        ops += [["initialize"], ["setParameter", rng.choice(PARAMS), rng.choice(VALS)]]
+    elif tail == 2:
+        ops += [["initialize"], ["setSpecies", [[rng.choice(SPECIES), float(rng.randint(0, 9))]]]]
+    elif tail == 3:
+        ops += [["addSpecies", rng.choice(["S", "R"])], ["initialize"], rule_op()]
     return ops
 
 
@@ -48,6 +78,8 @@ def apply_real(M, op):
         elif t == "createMassAction":
             k = op[3]["name"] if "name" in op[3] else op[3]["num"]
             M.create_reaction(list(op[1]), list(op[2]), "massaction", {"k": k})
+        elif t == "createRule":
+            M.create_rule("additive", {"equation": "%s = %s" % (op[1], " + ".join(op[2]))})
         elif t == "initialize":
             M.py_initialize()
         return "ok"
@@ -60,7 +92,8 @@ def observe(M):
     pl = M.get_param_list()
     sv = [float(v) for v in M.get_species_array()]
     pv = [float(v) for v in M.get_parameter_values()]
-    return {"species": sp, "speciesVals": sv, "params": pl, "paramVals": [None if math.isnan(v) else v for v in pv]}
+    return {"species": sp, "speciesVals": sv, "params": pl, "paramVals": [None if math.isnan(v) else v for v in pv],
+            "nrules": len(M.get_rules())}
 
 
 def is_initialized(M):
@@ -88,7 +121,8 @@ def simulate_by_name(M, T, seed, mode):
     from bioscrape.simulator import py_simulate_model
     from bioscrape.random import py_seed_random
     py_seed_random(seed)
-    kw = {"stochastic": mode != "det", "safe": mode == "safe", "delay": mode == "delay", "volume": 2.0 if mode == "volume" else False}
+    kw = {"stochastic": mode != "det", "safe": mode in ("safe", "safevolume"), "delay": mode in ("delay", "delayvolume"),
+          "volume": 2.0 if mode in ("volume", "delayvolume", "safevolume") else False}
     df = py_simulate_model(T.copy(), Model=M, **kw)
     return {c: np.array(df[c], dtype=float) for c in df.columns}
 
@@ -113,7 +147,7 @@ def history_case(ctx, ops):
     for i, (o, a) in enumerate(zip(real_out, ans["outs"])):
         st = a["state"]
         mm = {"species": st["species"], "speciesVals": [b2f(v) for v in st["speciesVals"]], "params": st["params"],
-              "paramVals": [None if v is None else b2f(v) for v in st["paramVals"]], "result": a["result"]}
+              "paramVals": [None if v is None else b2f(v) for v in st["paramVals"]], "nrules": len(st["rules"]), "result": a["result"]}
         if mm != o:
             ctx.broke("corr_C08_model_state_machine", {"ops": ops, "op_index": i, "model": mm, "implementation": o})
             return
@@ -138,14 +172,17 @@ def history_case(ctx, ops):
         else:
             fresh_rx.append((list(op[1]), list(op[2]), "massaction", {"k": pvals[dummies[di]]}))
             di += 1
+    rules = [op for op, o in zip(ops, real_out) if op[0] == "createRule" and o["result"] == "ok"]
     fresh = Model(species=list(reversed(final["species"])), reactions=fresh_rx,
                   parameters=[(p, v) for p, v in pvals.items() if not p.startswith("DummyVar_")],
+                  rules=[("additive", {"equation": "%s = %s" % (op[1], " + ".join(op[2]))}) for op in rules],
                   initial_condition_dict=svals)
     T = np.linspace(0, 1.0, 6)
     seed = 1 + (len(ops) * 7919) % 100000
-    M.py_initialize()       # unset species (-1) default to 0 at initialisation: part of the definition, not a change
-    d_before = (dict(M.get_species_dictionary()) if hasattr(M, "get_species_dictionary") else None, dict(zip(M.get_param_list(), M.get_parameter_values())))
-    for mode in ("det", "ssa", "safe", "volume", "delay"):
+    # no explicit initialisation here: the model is used as the history left it (the entry point initialises when the
+    # model says it needs it).  Unset species (-1) default to 0 at initialisation: part of the definition, not a change
+    d_before = ({k: (0.0 if v == -1 else v) for k, v in dict(M.get_species_dictionary()).items()}, dict(zip(M.get_param_list(), M.get_parameter_values())))
+    for mode in ("det", "ssa", "safe", "volume", "delay", "delayvolume", "safevolume"):
         try:
             a1 = simulate_by_name(M, T, seed, mode)
             a2 = simulate_by_name(M, T, seed, mode)
@@ -164,7 +201,7 @@ def history_case(ctx, ops):
                 ctx.violation("history-dependence/" + mode, "model reached through the history differs from a freshly built model of the same definition (%s, column %s)" % (mode, c),
                               {"ops": ops, "mode": mode, "column": c, "history": a1[c].tolist(), "fresh": b[c].tolist()})
                 return
-        ctx.nontriv((mode, len(rx), len(final["species"]), tuple(op[0] for op in ops[:5])))
+        ctx.nontriv((mode, len(rx), len(rules), len(final["species"]), tuple(op[0] for op in ops[:5])))
     d_after = (dict(M.get_species_dictionary()), dict(zip(M.get_param_list(), M.get_parameter_values())))
     if d_before[0] is not None and (d_before[0] != d_after[0] or d_before[1] != d_after[1]):
         ctx.violation("simulation-changed-model", "simulating changed the model's initial condition or a parameter",
